@@ -72,7 +72,7 @@ class C03(Check):
 
     def generate(self, rng: random.Random, r: int, tier: str) -> dict:
         ws = G.gen_workspace(rng, roots=(1, 2), defs=(2, 6), p_doc=0.45, p_const=0.5, p_pad=0.25, p_service=0.25, p_union=0.3, p_dep=0.15,
-                             p_uavcan=0.1, max_fields=5)
+                             p_uavcan=0.1, max_fields=5, p_derive=0.4, p_ref=0.5)
         uni = Universe(ws)
         variants = [{}]
         for v in range(rng.randint(3, 6)):
@@ -191,6 +191,27 @@ class C03(Check):
                         if strip_paths(c.composite(t)) != orig.get(str(t)):
                             out.fail("C03.roundtrip", "%s: model read back from its canonical rendering differs" % t)
                     out.stats["roundtrips"] += len(res["direct"])
+            # history: a revision of the same files in the same process - every base constant gets another value (names, types
+            # and layouts stay); derived constants (NAME + n, ns.Type.M.m.NAME + n) must follow, nothing may be remembered
+            ws2 = G.revise_constants(scn["ws"], scn.get("key") or 0)
+            if ws2 is not None:
+                from ..model.namespace import Universe as _U
+                uni2 = _U(ws2)
+                for k, d in uni2.defs.items():
+                    w.write(uni2.file_of(k), render(d, None)[0])
+                out.stats["constant_revisions"] += 1
+                for ri in range(nroots):
+                    op = {"op": "rn", "root": {"p": uni2.roots[ri]["dir"]}, "lookups": [{"p": uni2.roots[x]["dir"]} for x in range(nroots) if x != ri], "key": None, "cwd": ""}
+                    res = w.run_read(op)
+                    if not res["ok"]:
+                        out.fail("C03.mirror", "revision with other constant values rejected: %s: %s" % (type(res["exc"]).__name__, str(res["exc"])[:300]), "revision-rejected:" + type(res["exc"]).__name__)
+                        continue
+                    m = realcanon.Matcher(uni2.res)
+                    for t in res["direct"]:
+                        if str(t) in uni2.defs:
+                            m.message(str(t), str(t), t, docs=True)
+                    if m.bad:
+                        out.fail("C03.mirror", "after the constants were revised in the same files (same process): %s" % "; ".join(m.bad[:3]), "revision:" + m.bad[0].split(": ", 1)[-1].split(" ")[0])
             kinds = sorted((it[0] for d in uni.defs.values() for s in d["secs"] for it in s["items"]))
             nattr = max(sum(1 for s in d["secs"] for it in s["items"] if it[0] != "raw") for d in uni.defs.values())
             out.nontrivial = nattr >= 2 and bool(feats - {"end:nl"})
